@@ -55,10 +55,11 @@ def _set_names(f: Func, setfuncs: Set[str]) -> Set[str]:
 
 
 def rule_hash_order(ctx, rep, rid: str) -> None:
-    rep.rule(rid, "sequences whose order comes from iterating a Python set (slot tables of locals / cell / free variables) are only used through order-insensitive operations: membership, name -> index lookup, length, copy, append, and iteration that builds a parallel table", floor=12)
+    rep.rule(rid, "sequences whose order comes from iterating a Python set (slot tables of locals / cell / free variables) are only used through order-insensitive operations: membership, name -> index lookup, length, copy, append, and iteration that builds a parallel table; a conversion through sorted() is not hash-ordered at all", floor=5)
     setfuncs = _set_functions(ctx)
     tainted: Dict[str, str] = {}  # attribute/field name -> where the taint came from
     sources = 0
+    ordered = 0
     funcs = [f for f in ctx.tree.funcs if f.module.name in MODULES and not isinstance(f.node, ast.Lambda)]
     # 1. sources: set -> sequence conversions
     for f in funcs:
@@ -81,8 +82,15 @@ def rule_hash_order(ctx, rep, rid: str) -> None:
                             tainted[t.attr] = f"{f.qual}:{n.lineno}: {short(n, 60)}"
                         elif isinstance(t, ast.Name):
                             tainted["@" + f.qual + ":" + t.id] = f"{f.qual}:{n.lineno}"
-                if isinstance(v, ast.Call) and norm(v.func) == "sorted":
+                if isinstance(v, ast.Call) and norm(v.func) == "sorted" and v.args and isinstance(v.args[0], ast.Name) and v.args[0].id in sn:
+                    # sorted(S): the sequence's order is a function of its contents, not of the hash seed
+                    ordered += 1
+                    rep.ok(rid, f"{f.qual}:{norm(n.targets[0])} = sorted({v.args[0].id})", {"order": "sorted: independent of the hash seed"})
                     continue
+            # for x in sorted(S): deterministic
+            if isinstance(n, ast.For) and isinstance(n.iter, ast.Call) and norm(n.iter.func) == "sorted" and n.iter.args and isinstance(n.iter.args[0], ast.Name) and n.iter.args[0].id in sn:
+                ordered += 1
+                rep.ok(rid, f"{f.qual}:for {norm(n.target)} in sorted({n.iter.args[0].id})", {"order": "sorted: independent of the hash seed"})
             # for x in S: ... L.append(x)
             if isinstance(n, ast.For) and isinstance(n.iter, ast.Name) and n.iter.id in sn:
                 sources += 1
@@ -98,8 +106,9 @@ def rule_hash_order(ctx, rep, rid: str) -> None:
                     rep.bad(rid, key, f"{f.qual} calls {bad} while iterating the set {n.iter.id}: the order of the effect depends on the host's string-hash seed", f"{f.module.rel}:{n.lineno}")
                 else:
                     rep.ok(rid, key)
-    if sources < 3:
-        raise AnalysisError(f"only {sources} set->sequence conversions found (expected >= 3): anchors vanished")
+    if sources + ordered < 3:
+        raise AnalysisError(f"only {sources + ordered} set->sequence conversions found (expected >= 3): anchors vanished")
+    rep.analysed["set_to_sequence_conversions"] = {"hash_ordered": sources, "sorted": ordered}
     # 2. propagate through constructor keywords and simple copies
     changed = True
     while changed:
@@ -127,6 +136,7 @@ def rule_hash_order(ctx, rep, rid: str) -> None:
                         pass
     rep.analysed["hash_ordered_tables"] = {k: v for k, v in tainted.items() if not k.startswith("@")}
     names = {k for k in tainted if not k.startswith("@")}
+    ctx.__dict__["_hash_ordered_tables"] = dict((k, tainted[k]) for k in names)
     # CallFrame.locals holds values (a parallel table), not names: only the name tables are tainted
     # 3. every use of a tainted table
     for f in funcs:
@@ -154,10 +164,21 @@ def rule_hash_order(ctx, rep, rid: str) -> None:
                     rep.bad(rid, f"{f.qual}:{n.left.id}:literal-compare", f"{f.qual} compares a slot number taken from a hash-ordered table with the literal {c.value}", f"{f.module.rel}:{n.lineno}")
 
 
-def rule_frame_positions(ctx, rep, rid: str) -> None:
-    """Slots of a call frame beyond the parameter prefix are numbered in hash order: they may only be
-    filled by name (slot = table.index(name)), never by position."""
-    rep.rule(rid, "a call frame's local slots are filled positionally only inside the parameter prefix (i < len(params), the `arguments` slot len(params)); every other slot is addressed through name -> index lookup and the frame starts as a constant fill", floor=2)
+def rule_frame_positions(ctx, rep, rid: str, only_if_hash_ordered: bool = False) -> None:
+    """Slots of a call frame beyond the parameter prefix belong to declared variables (numbered by the compiler,
+    in hash order unless it sorts them): they may only be filled by name (slot = table.index(name)), never by
+    position -- surplus arguments would land in variables."""
+    rep.rule(rid, "a call frame's local slots are filled positionally only inside the parameter prefix (i < len(params), the `arguments` slot len(params)); every other slot is addressed through name -> index lookup and the frame starts as a constant fill", floor=1 if only_if_hash_ordered else 2)
+    if only_if_hash_ordered:
+        tables = ctx.__dict__.get("_hash_ordered_tables")
+        if tables is None:
+            from ..report import Report
+
+            rule_hash_order(ctx, Report("tmp", "quick"), "X")
+            tables = ctx.__dict__.get("_hash_ordered_tables", {})
+        if "locals" not in tables:
+            rep.ok(rid, "frame-positions", {"note": "the compiler numbers local slots in sorted order: positions do not depend on the hash seed (positional discipline itself is checked under C05-R9)"})
+            return
     n = 0
     for f in ctx.tree.funcs:
         if f.module.name not in MODULES:
@@ -184,7 +205,7 @@ def rule_frame_positions(ctx, rep, rid: str) -> None:
                 st = par
                 while st is not None and not isinstance(st, ast.stmt):
                     st = getattr(st, "_parent", None)
-                rep.bad(rid, key, f"{f.qual} uses num_locals to build or fill a frame positionally ({short(st or par, 70)}): values land in local slots whose numbering depends on the host's string-hash seed", f"{f.module.rel}:{x.lineno}")
+                rep.bad(rid, key, f"{f.qual} uses num_locals to build or fill a frame positionally ({short(st or par, 70)}): surplus arguments land in the slots of declared variables (whose numbering is the compiler's, and hash-dependent unless it sorts the names)", f"{f.module.rel}:{x.lineno}")
         for name, a in frames.items():
             idx_ok: Set[str] = set()
             for b in f.own_nodes():
@@ -293,12 +314,23 @@ def _code_of_object(obj: ast.AST, field: str, frame_fields: Set[str], f: Func) -
     return f"{norm(obj)}._compiled"
 
 
-def rule_parallel_tables(ctx, rep, rid: str) -> None:
+def rule_parallel_tables(ctx, rep, rid: str, only_if_hash_ordered: bool = False) -> None:
     """closure_cells / cell_storage are value tables that parallel a hash-ordered NAME table (free_vars /
     cell_vars) of ONE compiled function: position i means name i of that table.  Handing such a table to an
     object that runs different compiled code pairs it with another name table, whose order differs with the
     host's hash seed even when the two tables hold the same names."""
     rep.rule(rid, "a value table built by iterating a hash-ordered name table (closure cells ~ free_vars, cell storage ~ cell_vars) is only attached to, or passed on between, objects that run the very compiled function whose name table it parallels; indexes into it come from that function's table", floor=4)
+    if only_if_hash_ordered:
+        tables = ctx.__dict__.get("_hash_ordered_tables")
+        if tables is None:
+            from ..report import Report
+
+            rule_hash_order(ctx, Report("tmp", "quick"), "X")
+            tables = ctx.__dict__.get("_hash_ordered_tables", {})
+        if not ({"free_vars", "cell_vars"} & set(tables)):
+            for k in ("pairing-a", "pairing-b", "pairing-c", "pairing-d"):
+                rep.ok(rid, k, {"note": "free/cell variable tables are numbered in sorted order: equal name sets give equal positions, independent of the hash seed (the pairing discipline itself is checked under C05-R11)"})
+            return
     setfuncs = _set_functions(ctx)
     funcs = [f for f in ctx.tree.funcs if f.module.name in MODULES and not isinstance(f.node, ast.Lambda)]
     # frame fields: dataclass fields of the class that has a `func` field next to them
@@ -391,7 +423,7 @@ def rule_parallel_tables(ctx, rep, rid: str) -> None:
                 if par[sfield] != par[field]:
                     rep.bad(rid, key, f"{f.qual} passes .{sfield} (parallel to {par[sfield]}) on as .{field} (parallel to {par[field]})", f"{f.module.rel}:{n.lineno}")
                 elif scode != code:
-                    rep.bad(rid, key, f"{f.qual} hands the {par[field]} value table of {norm(sobj)} (code {scode}) to {who} (code {code}): the two functions number their {par[field]} independently, in hash order, so the cells end up under other names for some hash seeds", f"{f.module.rel}:{n.lineno}")
+                    rep.bad(rid, key, f"{f.qual} hands the {par[field]} value table of {norm(sobj)} (code {scode}) to {who} (code {code}): the two functions number their {par[field]} independently, so the cells end up under other names whenever the two tables differ", f"{f.module.rel}:{n.lineno}")
                 else:
                     rep.ok(rid, key, {"same code": code})
     # 3. name-derived indexes: X.F[idx] with idx = O.T.index(..): T parallels F and O is X's code
@@ -417,3 +449,92 @@ def rule_parallel_tables(ctx, rep, rid: str) -> None:
                     rep.bad(rid, key, f"{f.qual} indexes {norm(n.value)} (parallel to {code}.{par[n.value.attr]}) with a position looked up in {norm(t)}", f"{f.module.rel}:{n.lineno}")
                 else:
                     rep.ok(rid, key)
+
+
+# ---- slot numbers taken from hash-ordered tables never reach message text ------------------------------
+def rule_no_slot_numbers_in_messages(ctx, rep, rid: str) -> None:
+    """A position in a hash-ordered table (table.index(name), len(table)) is a number that changes with the hash
+    seed.  It may be emitted as an operand (the reader resolves it through the same table) but must not be
+    interpolated into an error message: the text of the error would differ from run to run."""
+    rep.rule(rid, "no error message interpolates a number derived from the position of a name in a hash-ordered table (directly, through a helper's return value, or through a parameter some caller fills with one)", floor=1)
+    tables = ctx.__dict__.get("_hash_ordered_tables")
+    if tables is None:
+        from ..report import Report
+
+        rule_hash_order(ctx, Report("tmp", "quick"), "X")
+        tables = ctx.__dict__.get("_hash_ordered_tables", {})
+    funcs = [f for f in ctx.tree.funcs if f.module.name in MODULES and not isinstance(f.node, ast.Lambda)]
+
+    def direct(e: ast.AST) -> bool:
+        for x in ast.walk(e):
+            if isinstance(x, ast.Call) and isinstance(x.func, ast.Attribute) and x.func.attr == "index" and isinstance(x.func.value, ast.Attribute) and x.func.value.attr in tables:
+                return True
+            if isinstance(x, ast.Call) and norm(x.func) == "len" and x.args and isinstance(x.args[0], ast.Attribute) and x.args[0].attr in tables:
+                return True
+        return False
+
+    # helpers whose return value is such a number (least fixpoint), and tainted locals per function
+    tainted_ret: Set[int] = set()
+
+    def tainted_expr(e: ast.AST, f: Func, locs: Set[str]) -> bool:
+        if direct(e):
+            return True
+        for x in ast.walk(e):
+            if isinstance(x, ast.Name) and x.id in locs:
+                return True
+            if isinstance(x, ast.Call):
+                cs = ctx.cg.site_of_call.get(id(x))
+                if cs is not None and cs.kind == "resolved" and any(id(t) in tainted_ret for t in cs.targets):
+                    return True
+        return False
+
+    def locals_of(f: Func, params_tainted: Set[str]) -> Set[str]:
+        locs = set(params_tainted)
+        changed = True
+        while changed:
+            changed = False
+            for n in f.own_nodes():
+                if isinstance(n, ast.Assign) and len(n.targets) == 1 and isinstance(n.targets[0], ast.Name) and n.targets[0].id not in locs and tainted_expr(n.value, f, locs):
+                    locs.add(n.targets[0].id)
+                    changed = True
+        return locs
+
+    changed = True
+    while changed:
+        changed = False
+        for f in funcs:
+            if id(f) in tainted_ret:
+                continue
+            locs = locals_of(f, set())
+            if any(isinstance(n, ast.Return) and n.value is not None and tainted_expr(n.value, f, locs) for n in f.own_nodes()):
+                tainted_ret.add(id(f))
+                changed = True
+    # parameters that some caller fills with such a number
+    from ..util import bind_args
+
+    tparams: Dict[int, Set[str]] = {}
+    for cs in ctx.cg.sites:
+        if cs.kind != "resolved" or cs.func not in funcs:
+            continue
+        locs = locals_of(cs.func, tparams.get(id(cs.func), set()))
+        for t in cs.targets:
+            if isinstance(t.node, ast.Lambda):
+                continue
+            for pname, a in bind_args(cs.call, t).items():
+                if a is not None and tainted_expr(a, cs.func, locs):
+                    tparams.setdefault(id(t), set()).add(pname)
+    n_msgs = 0
+    for f in funcs:
+        locs = locals_of(f, tparams.get(id(f), set()))
+        for n in f.own_nodes():
+            if not (isinstance(n, ast.Raise) and n.exc is not None):
+                continue
+            for js in ast.walk(n.exc):
+                if isinstance(js, ast.JoinedStr):
+                    for v in js.values:
+                        if isinstance(v, ast.FormattedValue):
+                            n_msgs += 1
+                            if locs or tables:
+                                if tainted_expr(v.value, f, locs):
+                                    rep.bad(rid, f"{f.qual}:message:{norm(v.value)}", f"{f.qual} puts {norm(v.value)} into an error message, and that number is (for some caller) the position of a name in a hash-ordered table ({', '.join(sorted(tables)) or 'none'}): the text of the error changes with the host's string-hash seed", f"{f.module.rel}:{n.lineno}")
+    rep.ok(rid, "messages", {"interpolations_examined": n_msgs, "hash_ordered_tables": sorted(tables)})
